@@ -93,7 +93,10 @@ EvalPair(s, prog, envv) ==
                          gc == s.dialect # "runtime" /\ "ENABLE_GC" \in s.flags /\ SmallNumber(opn) \in GCOps
                          ops1 == (IF gc THEN Append(s.ops, "restore") ELSE s.ops)
                                    \o << "apply" >> \o [i \in 1..Len(items) |-> "swap"]
-                     IN  IF ~IsNil(Terminator(opl)) THEN Fail(s, "InvalidNilTerminator")
+                     IN  IF ~IsNil(Terminator(opl))
+                         \* (the code has pushed everything but the final nil when it notices the terminator)
+                         THEN Fail([s EXCEPT !.env = Append(@, envv), !.val = @ \o << opn >> \o items, !.ops = ops1],
+                                   "InvalidNilTerminator")
                          ELSE Charge([s EXCEPT !.env = Append(@, envv),
                                                !.val = @ \o << opn >> \o items \o << Nil >>,
                                                !.ops = ops1], N(1))
